@@ -29,6 +29,7 @@ structure C13Obs where
 deriving DecidableEq
 
 def handleC13 (inp obs : List String) : Verdict :=
+  let tys := (do let ty ← nat; let ty2 ← nat; pure (ty, ty2)).run inp
   let parsed := (do let _ty ← nat; let _ty2 ← nat; let xs ← many pRec; pure xs).run inp
   let pobs : Option (Option C13Obs × List String) := (do
     match (← peek?) with
@@ -53,7 +54,9 @@ def handleC13 (inp obs : List String) : Verdict :=
       (if xs.any (fun a => a.start > a.stop) then ["end-before-start"] else []) ++
       (if pairsIn.any (fun (a, b) => a.chrom != b.chrom) then ["different-chromosome"] else []) ++
       (if pairsIn.any (fun (a, b) => a.chrom != b.chrom && (a.chrom.isPrefixOf b.chrom)) then ["prefix-chromosome-names"] else []) ++
-      (if xs.any (fun a => a.stop == U64MAX) then ["u64max"] else [])
+      (if xs.any (fun a => a.stop == U64MAX) then ["u64max"] else []) ++
+      (if pairsIn.any (fun (a, b) => a.chrom == b.chrom && (a.stop - a.start) + (b.stop - b.start) > U64MAX) then ["length-sum-above-u64max"] else []) ++
+      (match tys with | some ((a, b), _) => (flavourClasses a ++ flavourClasses b).eraseDups | none => [])
     match o with
     | none => { kind := "specfail", nontrivial, classes, detail := "implementation panicked" }
     | some o =>
